@@ -200,4 +200,10 @@ Section Abs.
     | [] => true
     | o :: t => well_scopedb h o && scoped_from (fst (step sch h o)) t
     end.
+  (* the operations Reflect.run executes when it draws the operands from the earlier results *)
+  Definition trace_step (st : heap * list pval * list op) (mk : list pval -> op) : heap * list pval * list op :=
+    let '(h, outs, os) := st in
+    let o := mk outs in
+    let (h', r) := step sch h o in (h', outs ++ [r], os ++ [o]).
+  Definition trace (ops : list (list pval -> op)) : list op := snd (fold_left trace_step ops ([], [], [])).
 End Abs.
